@@ -14,7 +14,7 @@ set_option linter.unusedVariables false
 set_option linter.unusedSimpArgs false
 set_option maxHeartbeats 1000000
 open Lex PM Ast TP TP2 TS TQ
-namespace TD
+namespace TDM
 variable {d : Gen.D} {ch : Expr → Bool}
 
 /-! ### bracket groups split at commas -/
@@ -417,4 +417,4 @@ theorem insert_target (tb : Bool) (h : InsertHead) (ws : List WithTable) (hw : h
   simp only [pWithOpt, toksTarget, List.append_assoc, List.cons_append, h1, h2, h3, h4, h5]
   rfl
 
-end TD
+end TDM
